@@ -146,3 +146,8 @@ m("C02-resize-when-equal", "C02", "image/common.py", "            if img.size !=
 m("C11-prev-img-close-inverted", "C11", "image/common.py", "                finally:\n                    if frame_img is not prev_img:\n                        self._close_image(prev_img)\n\n            if img.size != size:", "                finally:\n                    if frame_img is prev_img:\n                        self._close_image(prev_img)\n\n            if img.size != size:")
 m("C11-close-image-closes-source", "C11", "image/common.py", "        if img is not self._source:\n            img.close()", "        img.close()")
 m("C02-opaque-modes-missing-L", "C02", "image/common.py", 'if alpha is None or img.mode in {"1", "L", "RGB", "HSV", "CMYK"}:\n            convert_resize_img("RGB")', 'if alpha is None or img.mode in {"1", "RGB", "HSV", "CMYK"}:\n            convert_resize_img("RGB")')
+# ---- format spec interpretation
+m("C19-default-height", "C19", "image/common.py", "                int(height) if height else -2,", "                int(height) if height else -1,")
+m("C19-zero-height-as-default", "C19", "image/common.py", "                int(height) if height else -2,", "                int(height or 0) or -2,")
+m("C19-bare-hash-keeps-default-alpha", "C19", "image/common.py", "                threshold_or_bg\n                and (", "                (threshold_or_bg or _ALPHA_THRESHOLD)\n                and (")
+m("C19-width-height-swapped", "C19", "image/common.py", "                h_align,\n                int(width) if width else 0,\n                v_align,\n                int(height) if height else -2,", "                h_align,\n                int(height) if height else 0,\n                v_align,\n                int(width) if width else -2,")
